@@ -303,6 +303,29 @@ func same(a, b any) bool {
 	return reflect.DeepEqual(a, b)
 }
 
+// scramble edits a value that was READ from the engine in place (what a task
+// handler does to its input): maps get a key more and lose their others'
+// contents, slices have their elements replaced - recursively. A later read
+// of the same stored value must not show any of it.
+func scramble(v any) {
+	switch x := v.(type) {
+	case map[string]any:
+		if x == nil {
+			return
+		}
+		for k, e := range x {
+			scramble(e)
+			x[k] = "scrambled"
+		}
+		x["zz_scrambled"] = true
+	case []any:
+		for i, e := range x {
+			scramble(e)
+			x[i] = "scrambled"
+		}
+	}
+}
+
 func describe(v any) string {
 	return fmt.Sprintf("%T(%#v)", v, v)
 }
@@ -506,6 +529,12 @@ func runValue(c vcase) (sym, det string) {
 		}
 		if !same(got, want) {
 			return "value", fmt.Sprintf("NewValue(%s).Value() = %s, want %s", describe(v), describe(got), describe(want))
+		}
+		// the reader edits what it was given; the item still reads as stored
+		val := schema.NewValue(v)
+		scramble(val.Value())
+		if again := val.Value(); !same(again, want) {
+			return "aliased", fmt.Sprintf("NewValue(%s): after the first reader edited the value it had read, the item reads %s, want %s", describe(v), describe(again), describe(want))
 		}
 		return "", ""
 	}
@@ -740,10 +769,26 @@ func runEngine(c ecase) (sym, det, inconcl string) {
 		if s, d := checkStored("WithVariables -> CloneVariables", g, ty, ok); s != "" {
 			return s, d, ""
 		}
+		scramble(g)
+		if gv, found := in.P.Locator().GetVariable("v"); found {
+			scramble(gv)
+		}
+		g, ty, ok = readVar("v")
+		if s, d := checkStored("WithVariables -> CloneVariables, after two readers edited the values they had read", g, ty, ok); s != "" {
+			return "aliased:" + s, d, ""
+		}
 	case "results":
 		g, ty, ok := readVar("r")
 		if s, d := checkStored("DoWithResults -> CloneVariables", g, ty, ok); s != "" {
 			return s, d, ""
+		}
+		scramble(g)
+		if gv, found := in.P.Locator().GetVariable("r"); found {
+			scramble(gv)
+		}
+		g, ty, ok = readVar("r")
+		if s, d := checkStored("DoWithResults -> CloneVariables, after two readers edited the values they had read", g, ty, ok); s != "" {
+			return "aliased:" + s, d, ""
 		}
 	case "objects":
 		items := in.P.Locator().CloneItems(data.LocatorObject)
@@ -755,6 +800,12 @@ func runEngine(c ecase) (sym, det, inconcl string) {
 		}
 		if s, d := checkStored("DoWithObjects -> CloneItems", g, ty, ok && it != nil); s != "" {
 			return s, d, ""
+		}
+		scramble(g)
+		if it2, ok2 := in.P.Locator().CloneItems(data.LocatorObject)["out"]; ok2 && it2 != nil {
+			if s, d := checkStored("DoWithObjects -> CloneItems, after the first reader edited the value it had read", it2.Value(), it2.Type(), true); s != "" {
+				return "aliased:" + s, d, ""
+			}
 		}
 	case "property":
 		// the second task has been requested with properties/headers resolved through the reference
